@@ -29,7 +29,7 @@ def trap_schedules(out):
         for _label, text in res.counterexample:
             m = re.search(r"^/\\ scn = (.*?)(?=^/\\ |\Z)", text, flags=re.M | re.S)
             if m and scn is None:
-                scn = to_json(parse_value(m.group(1)))
+                scn = {k: v for k, v in to_json(parse_value(m.group(1))).items() if k in ("sched", "workerOf", "W")}
             ma = re.search(r"^/\\ act = (.*?)(?=^/\\ |\Z)", text, flags=re.M | re.S)
             if ma:
                 a = parse_value(ma.group(1))
@@ -62,7 +62,7 @@ def run(ctx, out):
     for scn, script, cfg in traps:
         for k in range(2):
             jobs.append({"scn": scn, "script": script, "seed": ctx.seed + k, "test_mode": True, "qmax": 100})
-    beh = rc.behaviours(ctx, out, 40 if ctx.quick else 400, 90)
+    beh = rc.behaviours(ctx, out, 120 if ctx.quick else 1200, 100)
     out.note("leg S2C: %d TLC behaviours + %d trap schedules" % (len(beh), len(traps)))
     for i, (scn, script) in enumerate(beh):
         jobs.append({"scn": scn, "script": script, "seed": ctx.seed + i, "test_mode": True, "qmax": 100})
@@ -74,7 +74,7 @@ def run(ctx, out):
         if key not in seen:
             seen.add(key)
             scns.append(scn)
-    reps = 2 if ctx.quick else 12
+    reps = 4 if ctx.quick else 24
     for i, scn in enumerate(scns):
         for k in range(reps):
             jobs.append({"scn": scn, "script": [], "seed": ctx.seed + 1000 + 31 * i + k, "test_mode": k % 2 == 0, "qmax": 100, "offsets": [0.0, 3.5, -2.25] if k % 3 else None})
